@@ -18,7 +18,7 @@
     socket-level queue.
 -/
 import NngModel.Proto.Base
-import NngModel.Generated.Consts
+import NngModel.Generated.C05
 namespace Nng.Sub
 open Nng Nng.Proto
 
